@@ -1,8 +1,111 @@
-import O4.Model.ScrambleSuit
-/-! # C15 — ScrambleSuit client (work in progress) -/
+import O4.Lemmas.ScrambleSuit
+/-!
+# C15 — ScrambleSuit client: handshake, stream and tickets work for every segmentation
+
+Property theorems only (model: `O4/Model/ScrambleSuit.lean`, helper lemmas:
+`O4/Lemmas/ScrambleSuit.lean`).  All constants are the ones regenerated from the Go tree.
+Cryptography is abstract (`Prims`); hypotheses on it are explicit and shown satisfiable by the
+`example`s (toy primitives), MAC claims are in reduction form with explicit witnesses.
+-/
 namespace C15
 open O4 O4.SS O4.Consts.Scramblesuit
 
-theorem consts_fit : dhSize + dhMaxPadLength + 2 * macLength ≤ maxHandshakeLength := by decide
+/-! ## toy primitives for the non-vacuity examples -/
+
+/-- a "MAC" that only depends on the lengths (enough to exhibit the hypotheses) -/
+def toyPrims : Prims :=
+  { hmac := fun k m => List.replicate 32 (UInt8.ofNat (k.length + m.length))
+    sha256 := fun m => m.take 32
+    hkdfExpand := fun prk n => List.replicate n (prk.getD 0 0)
+    ctrXor := fun _ _ off d => d.zipIdx.map (fun (x, i) => x ^^^ UInt8.ofNat (off + i))
+    dhPublic := fun p => some p
+    dhShared := fun _ q => some q }
+
+theorem toy_macLen : MacLen toyPrims := by
+  intro k m; simp [mac128, toyPrims]; decide
+
+/-! ## the UniformDH response parser -/
+
+/-- **Stable re-parser.** For a conforming server stream (response with any padding length
+`0 … dhMaxPadLength`, followed by any surplus `T`) and EVERY way `cs` of cutting it into
+segments, the client's read loop completes with the seed derived from its Diffie-Hellman
+result, leaves exactly the surplus (what is in `receiveBuffer` plus the segments not read yet
+is `T`), and never reads past the segment in which the response ended. -/
+theorem response_any_split (P : Prims) (kB priv pubX cpad Y pad T ss : Bytes) (hour : Int)
+    (c : Conf P kB priv (epochHourBytes hour) Y pad T ss) (cs : List Bytes)
+    (hcs : cs.flatten = serverResponse P kB Y pad hour ++ T) :
+    ∃ rest unread,
+      dhLoop P true ((DhHs.new kB priv pubX).generate P cpad hour).1 [] cs = .done (P.sha256 ss) rest unread ∧
+      rest ++ unread.flatten = T ∧ unread <:+ cs := by
+  have hpos : ([] : Bytes).length < (respOf P kB (epochHourBytes hour) Y pad).length := by
+    rw [respOf_length c.macLen]; have := c_mac_pos; simp only [List.length_nil]; omega
+  exact dhLoop_conforming c cs [] _ ⟨rfl, rfl, rfl, Or.inl rfl⟩ (by simpa [serverResponse_eq] using hcs) hpos
+
+/-- the hypotheses of `response_any_split` are satisfiable: a 3-byte padding, 5 surplus bytes -/
+example : Conf toyPrims (List.replicate 20 1) [9] (epochHourBytes 480000) (List.replicate 192 0) [0, 0, 0]
+    [1, 2, 3, 4, 5] (List.replicate 192 0) :=
+  { macLen := toy_macLen, hY := by rfl, hpad := by decide, hfirst := by decide +kernel, hss := rfl }
+
+/-- both ends derive the same master secret when the Diffie-Hellman function commutes
+    (`X^y = Y^x`), hence (`serverKeys`) mirrored session keys -/
+theorem seeds_agree (P : Prims) (priv pubX spriv Y ss : Bytes)
+    (hcomm : P.dhShared spriv pubX = P.dhShared priv Y) (hss : P.dhShared priv Y = some ss) :
+    (P.dhShared spriv pubX).map P.sha256 = some (P.sha256 ss) ∧
+    ∀ seed, serverKeys P seed = ((initCrypto P seed).2, (initCrypto P seed).1) := by
+  refine ⟨by rw [hcomm, hss]; rfl, fun seed => rfl⟩
+
+/-- **F3, the code before the repair.** With the length test `len(resp) < pos + 2*macLength`
+(no `uniformdh.Size`), a first segment that ends inside the trailing MAC of a conforming response
+makes the parser slice beyond the received bytes: for EVERY conforming stream and every cut in
+the last `macLength` bytes (at or after `minHandshakeLength`) the client panics instead of
+waiting. So `response_any_split` is false of that code. -/
+theorem split_counterexample (P : Prims) (kB priv pubX cpad Y pad T ss : Bytes) (hour : Int)
+    (c : Conf P kB priv (epochHourBytes hour) Y pad T ss) (k : Nat)
+    (hmin : minHandshakeLength ≤ k)
+    (hin : (serverResponse P kB Y pad hour).length - macLength ≤ k)
+    (hlt : k < (serverResponse P kB Y pad hour).length) :
+    dhLoop P false ((DhHs.new kB priv pubX).generate P cpad hour).1 []
+      [(serverResponse P kB Y pad hour ++ T).take k, (serverResponse P kB Y pad hour ++ T).drop k] = .panic := by
+  rw [serverResponse_eq] at *
+  have hk : k ≤ (respOf P kB (epochHourBytes hour) Y pad ++ T).length := by
+    rw [List.length_append]; omega
+  have hl : ((respOf P kB (epochHourBytes hour) Y pad ++ T).take k).length = k := by
+    rw [List.length_take]; omega
+  obtain ⟨hs', hc, hi'⟩ := cache_prefix c (hs := ((DhHs.new kB priv pubX).generate P cpad hour).1)
+    ⟨rfl, rfl, rfl, Or.inl rfl⟩ k hmin hk
+  have hp := parseTail_prefix_panics c hi' k hk hmin hin hlt
+  simp only [dhLoop, List.nil_append, DhHs.parse, hl, if_neg (Nat.not_lt.mpr hmin), hc, hp]
+
+/-- the counterexample is not vacuous: padding 3, first segment = all but the last byte -/
+example : (serverResponse toyPrims (List.replicate 20 1) (List.replicate 192 0) [0, 0, 0] 480000).length = 227 ∧
+    minHandshakeLength ≤ 226 := by
+  constructor
+  · decide +kernel
+  · decide
+
+/-! ## no panic, bounded buffer (needed by C10) -/
+
+/-- **No panic.** The repaired parser never slices out of bounds: for every state and EVERY
+input (conforming or not) the outcome is not `panic`. -/
+theorem no_panic_response (P : Prims) (hs : DhHs) (resp : Bytes) :
+    (hs.parse P true resp).2 ≠ .panic := by
+  have h1 := c_min
+  have h2 := c_mac_le
+  unfold DhHs.parse
+  split
+  · simp
+  · rename_i hlen
+    have hd : dhSize ≤ resp.length := by omega
+    cases hc : hs.cache P resp with
+    | none =>
+      exfalso
+      unfold DhHs.cache at hc
+      split at hc
+      · simp at hc
+      · rw [slice?_eq (Nat.zero_le _) hd] at hc
+        simp at hc
+    | some r =>
+      obtain ⟨hs', y⟩ := r
+      exact parseTail_no_panic P hs' y resp (by omega)
 
 end C15
